@@ -787,7 +787,7 @@ impl<'a> Sim<'a> {
                 self.flags.rejected_invalid = true;
                 ctx.label("invalid_op_rejected");
             }
-            (Zone::MustAccept, Err(e)) if !count_refusal => ctx.fail(
+            (Zone::MustAccept, Err(e)) if !count_refusal => ctx.precondition_failed(
                 format!("addop_rejects_valid:{}", err_name(e)),
                 format!(
                     "add_op refused valid op {id} on a replica with {before} entries: {e}; op = {:?}",
@@ -1022,7 +1022,7 @@ pub fn check(case: &Case, ctx: &mut Ctx) {
         ctx.label("near_limit_mode");
         match &q.base {
             Err(e) => {
-                ctx.fail("addop_rejects_valid:prefill", e.clone());
+                ctx.precondition_failed("addop_rejects_valid:prefill", e.clone());
                 return;
             }
             Ok(base) => {
